@@ -8,10 +8,10 @@
   determinism of the VM, checked by the Lua-level sweep, not proved here.
 -/
 import GoluaVerif.Proofs.Ctx
-import GoluaVerif.Proofs.CallCtx
+import GoluaVerif.Proofs.Propagate
 namespace GoluaVerif.Props.C05
 open GoluaVerif.Generated.Resources GoluaVerif.Model.Ctx GoluaVerif.Spec.Quota GoluaVerif.Proofs.Ctx
-open GoluaVerif.Model.CallCtx GoluaVerif.Proofs.CallCtx
+open GoluaVerif.Model.CallCtx GoluaVerif.Proofs.CallCtx GoluaVerif.Proofs.Propagate
 
 /-- a fresh context with hard CPU limit `L` on top of an unlimited runtime -/
 def limited (L : BitVec 64) : Frame := Frame.root.child ⟨⟨L, 0#64, 0#64⟩, Res.zero, 0#16⟩
@@ -103,102 +103,94 @@ theorem kill_is_final (f : Frame) (n : BitVec 64) (hl : f.live = true) (hk : (f.
 
 /-- **no step after the kill** (bracketed model): when an item of a body ends in a termination the
 rest of that body is not executed — the state, the host-visible events and the results are those
-right after the kill; the enclosing CallContext then only pops. -/
-theorem no_step_after_kill (a a1 : Acc) (it : Item) (rest : List Item) (h : runItem a it = (a1, .killed)) :
-    runBody a (it :: rest) = (a1, .killed) := by
+right after the kill; the enclosing CallContext then only pops (and, since commit 0426709,
+propagates). -/
+theorem no_step_after_kill (a a1 : Acc) (it : Item) (rest : List Item) (res : TermRes)
+    (h : runItem a it = (a1, .killed res)) : runBody a (it :: rest) = (a1, .killed res) := by
   unfold runBody; rw [h]
 
-/-- a kill inside a context ends that context with status `killed` and hands control back to a
-live, aligned parent which has been charged — for every well-formed body, from every state
-satisfying the invariant -/
-theorem kill_returns_to_parent (a : Acc) (d : CtxDef) (body : List Item) (hw : wfBody body = true)
-    (hi : Inv a.st) (hl : a.st.cur.live = true) :
-    let r := runItem a (.call d body)
-    r.2 ≠ .killed ∧ r.1.st.parents = a.st.parents ∧ r.1.st.cur.live = true ∧ Inv r.1.st := by
-  have g := good_item a (.call d body) (by unfold Item.wf; exact hw) hi hl
-  have hne : (runItem a (.call d body)).2 ≠ .killed := by
-    intro hk
-    have h1 := g.killed hk
-    -- the frame current after a call is the charged parent, which is live: impossible
-    unfold runItem at hk h1
-    simp only at hk h1
-    revert hk h1
-    cases hr : runBody { a with st := push a.st d } body with
-    | mk a1 ex =>
-      have gb := good_body { a with st := push a.st d } body hw (inv_step (.push d) hi hl) rfl
-      rw [hr] at gb
-      have hpar : a1.st.parents = a.st.cur :: a.st.parents := gb.parents
-      have hi2 : Inv (if ex = Exit.error then setError a1.st else a1.st) := by
-        split
-        · exact inv_setError gb.inv
-        · exact gb.inv
-      have hpar2 : (if ex = Exit.error then setError a1.st else a1.st).parents = a.st.cur :: a.st.parents := by
-        split <;> exact hpar
-      obtain ⟨hc2, hch2⟩ := hi2
-      rw [hpar2] at hch2
-      obtain ⟨hcp, hp, hpl, _⟩ := hch2
-      have hpop := pop_ok (ps := a.st.parents) hc2 hp hpl hcp
-      rw [← hpar2] at hpop
-      simp only [hpop]
-      cases ex <;> intro hk <;> cases hk
-  exact ⟨hne, g.parents, g.live hne, g.inv⟩
+/-- **A bracket without a CPU limit of its own (pcall, xpcall, callcontext{}) cannot absorb a CPU
+termination**: for EVERY well-formed body, from every state satisfying the invariant, if the body
+is terminated for CPU and the enclosing context is CPU-limited, the call does not return: the
+enclosing context is terminated as well (`killed`), the stack stays aligned, and nothing — no
+operation, no result handed back — happens between the refused request and that termination. -/
+theorem limitless_bracket_cannot_absorb (a : Acc) (d : CtxDef) (body : List Item) (hw : wfBody body = true)
+    (hi : Inv a.st) (hl : a.st.cur.live = true) (hd : d.hard.Cpu = 0#64) (hL : a.st.cur.hard.Cpu ≠ 0#64)
+    (hk : (runBody { a with st := push a.st d } body).2 = .killed .cpu) :
+    (runItem a (.call d body)).2 = .killed .cpu ∧
+    (runItem a (.call d body)).1.st.cur.status = StatusKilled ∧
+    (runItem a (.call d body)).1.st.parents = a.st.parents ∧
+    (runItem a (.call d body)).1.events = (runBody { a with st := push a.st d } body).1.events ∧
+    (runItem a (.call d body)).1.results = (runBody { a with st := push a.st d } body).1.results :=
+  limitless_bracket_propagates_cpu a d body hw hi hl hd hL hk
 
-def interceptDef : CtxDef := ⟨⟨10#64, 0#64, 0#64⟩, Res.zero, 0#16⟩
-/-- `callcontext{kill={cpu=10}}( pcall(big) ; 9 more ticks )` -/
-def interceptProg : Item :=
-  .call interceptDef [.call CtxDef.none [.op (.reqCpu 20#64)], .op (.reqCpu 1#64), .op (.reqCpu 8#64)]
+/-- **uninterceptable**: in a CPU-limited context, for every program made of requests and any
+nesting of limit-less brackets, if the program asks for at least what the context has left
+(`hard ≤ used + cost`, wherever in the nesting the request that crosses the line sits), the run ends
+with that context terminated (`killed`), the stack aligned, and the refused request is the LAST
+operation executed: no operation of the context or of any descendant runs after it
+(`EvKill`: the new events are granted requests followed by exactly one refused one). -/
+theorem uninterceptable (a : Acc) (body : List Item) (hw : bodyPcallCpu body = true) (hi : Inv a.st)
+    (hm : Metered a.st.cur) (hf : bodyFits a.st.cur.hard.Cpu.toNat body)
+    (hge : a.st.cur.hard.Cpu.toNat ≤ a.st.cur.used.Cpu.toNat + bodyCost body) :
+    (runBody a body).2 = .killed .cpu ∧ (runBody a body).1.st.cur.status = StatusKilled ∧
+    (runBody a body).1.st.parents = a.st.parents ∧ EvKill a (runBody a body).1 :=
+  (exact_body a body hw hi hm hf).die hge
 
-/-- **uninterceptable is FALSE of the current code** for requests larger than the remaining budget:
-the request of 20 under a limit of 10 kills only the pcall child (which has used 0), nothing is
-charged, and the parent goes on to do 9 more ticks of work and ends `done`.  Replayed on the real
-interpreter by the probes of checks/c05.py (`pcall(string.find, s, 'b', 1, true)`). -/
-theorem uninterceptable_counterexample :
-    (exec St.init interceptProg).1.events.reverse.map (fun e => (e.depth, e.out)) =
-      [(2, .terminated), (1, .ok), (1, .ok)] ∧
-    (exec St.init interceptProg).1.results.reverse.map (fun r => (r.depth, r.status, r.exit)) =
-      [(2, StatusKilled, .killed), (1, StatusDone, .done)] := by decide
+/-- **exact, through any nesting**: the same program is killed iff `L ≤ used + cost`; when it is
+not, every request is granted, the counter ends at exactly `used + cost`, and the context is still
+metered — C05's "exact" and "uninterceptable" together. -/
+theorem kill_exact_nested (a : Acc) (body : List Item) (hw : bodyPcallCpu body = true) (hi : Inv a.st)
+    (hm : Metered a.st.cur) (hf : bodyFits a.st.cur.hard.Cpu.toNat body) :
+    ((runBody a body).2 = .killed .cpu ↔ a.st.cur.hard.Cpu.toNat ≤ a.st.cur.used.Cpu.toNat + bodyCost body) ∧
+    (a.st.cur.used.Cpu.toNat + bodyCost body < a.st.cur.hard.Cpu.toNat →
+      (runBody a body).2 = .done ∧ Metered (runBody a body).1.st.cur ∧
+      (runBody a body).1.st.cur.used.Cpu.toNat = a.st.cur.used.Cpu.toNat + bodyCost body ∧
+      (runBody a body).1.st.parents = a.st.parents ∧ EvOk a (runBody a body).1) := by
+  have e := exact_body a body hw hi hm hf
+  refine ⟨⟨fun hk => ?_, fun h => (e.die h).1⟩, fun h => ?_⟩
+  · apply Classical.byContradiction
+    intro hn
+    have := (e.survive (by omega)).1
+    rw [this] at hk; cases hk
+  · obtain ⟨h1, h2, h3, _, h5, _, h7⟩ := e.survive h
+    exact ⟨h1, h2, h3, h5, h7⟩
 
-/-- unit requests cannot be intercepted: if a request of one tick is refused in a pcall child that
-inherited all of its parent's remaining budget, then after the child is popped the parent has
-exactly one tick less than its limit, so its next request of any size `n ≥ 1` is refused too.
-(The general statement is the counterexample above; the missing part is requests larger than 1.) -/
-theorem uninterceptable_unit_partial (p c : Frame) (hp : Metered p) (hpo : FrameOk p) (hc : FrameOk c)
-    (hch : Chain c p) (hinherit : c.hard.Cpu = (p.hard.Remove p.used).Cpu) (hcm : Metered c)
-    (hkill : (c.requireCPU 1#64).2 = .terminated)
-    (n : BitVec 64) (hn : n ≠ 0#64) (hfit : n.toNat + p.hard.Cpu.toNat ≤ 2 ^ 64) :
-    ((pop ⟨(c.requireCPU 1#64).1, [p]⟩).1.cur.requireCPU n).2 = .terminated := by
-  have hc1 : c.hard.Cpu.toNat + p.hard.Cpu.toNat ≤ 2 ^ 64 → True := fun _ => trivial
-  have hrem := Remove_Cpu p.hard p.used
-  have hpb := hp.below
-  have hcb := hcm.below
-  have hcl : c.hard.Cpu.toNat = p.hard.Cpu.toNat - p.used.Cpu.toNat := by rw [hinherit, hrem]
-  -- the refused unit request: used + 1 ≥ hard, used unchanged
-  have hfit1 : (1#64 : BitVec 64).toNat + c.hard.Cpu.toNat ≤ 2 ^ 64 := by
-    have := p.hard.Cpu.isLt; simp; omega
-  have hk := (kill_step_exact c 1#64 hcm hfit1).mp hkill
-  have hk1 : (1#64 : BitVec 64).toNat = 1 := by simp
-  rw [hk1] at hk
-  have ec : c.requireCPU 1#64 = (c.kill, .terminated) := by
-    rcases metered_step 1#64 hcm hfit1 with ⟨_, e⟩ | ⟨hlt, _⟩
-    · exact e
-    · rw [hk1] at hlt; omega
-  rw [ec]
-  have hck : FrameOk c.kill := frameOk_kill hc
-  have hchk : Chain c.kill p := ⟨hch.hard, hch.flags⟩
-  rw [pop_ok (ps := []) hck hpo hp.live hchk]
-  -- the parent after the pop
-  have hs := charged_same p c.kill
-  have hms := chargeMem_same (chargeCpu p c.kill.used.Cpu) c.kill.used.Memory
-  have hu : (charged p c.kill).used.Cpu.toNat = p.used.Cpu.toNat + c.used.Cpu.toNat := by
-    unfold charged; rw [hms.2.2.2.2.2.1]; unfold chargeCpu; rw [hp.track]
-    exact (charge_cpu_below hck hpo hchk).2 hp.lim
-  have hm' : Metered (charged p c.kill) :=
-    ⟨by unfold Frame.live; rw [hs.2.2.2.1]; exact hp.live,
-     by unfold Frame.hardStopped; rw [hs.2.2.2.2.1]; exact hp.nostop,
-     by rw [hs.2.2.2.2.2.1]; exact hp.track, by rw [hs.1]; exact hp.lim, by rw [hs.1, hu]; omega⟩
-  rw [kill_step_exact _ n hm' (by rw [hs.1]; exact hfit), hs.1, hu]
-  have := (ne_zero_iff n).mp hn
+/-- the same from a fresh runtime: `callcontext{kill={cpu=L}}` around such a program reports
+`killed` iff `L ≤ cost` -/
+theorem kill_exact_nested_from_root (L : BitVec 64) (body : List Item) (hL : L ≠ 0#64)
+    (hw : bodyPcallCpu body = true) (hf : bodyFits L.toNat body) :
+    (runBody (Acc.start ⟨limited L, [Frame.root]⟩) body).2 = .killed .cpu ↔ L.toNat ≤ bodyCost body := by
+  obtain ⟨hm, hh, hu⟩ := limited_metered hL
+  have hi : Inv ⟨limited L, [Frame.root]⟩ := inv_step (s := St.init) (.push _) inv_init rfl
+  have := (kill_exact_nested (Acc.start ⟨limited L, [Frame.root]⟩) body hw hi hm
+    (by show bodyFits (limited L).hard.Cpu.toNat body; rw [hh]; exact hf)).1
+  rw [this]
+  show (limited L).hard.Cpu.toNat ≤ (limited L).used.Cpu.toNat + bodyCost body ↔ _
+  rw [hh, hu]; simp
+
+/-- **monotone through any nesting** -/
+theorem kill_monotone_nested (L L' : BitVec 64) (body : List Item) (hL' : L' ≠ 0#64) (hle : L'.toNat ≤ L.toNat)
+    (hw : bodyPcallCpu body = true) (hf : bodyFits L.toNat body)
+    (hk : (runBody (Acc.start ⟨limited L, [Frame.root]⟩) body).2 = .killed .cpu) :
+    (runBody (Acc.start ⟨limited L', [Frame.root]⟩) body).2 = .killed .cpu := by
+  have hL : L ≠ 0#64 := by rw [ne_zero_iff] at *; omega
+  rw [kill_exact_nested_from_root L' body hL' hw (fits_mono_body hle body hf)]
+  have := (kill_exact_nested_from_root L body hL hw hf).mp hk
   omega
+
+/-- **a child with a tighter limit of its own dies alone**: if the bracket's own CPU limit is strictly
+below what the parent has left (or the parent is unlimited) and its body is terminated for CPU, the
+call returns normally with a context whose status is `killed`, and the parent stays live. -/
+theorem child_with_own_limit_dies_alone (a : Acc) (d : CtxDef) (body : List Item) (hw : wfBody body = true)
+    (hi : Inv a.st) (hl : a.st.cur.live = true) (hd : d.hard.Cpu ≠ 0#64)
+    (htight : a.st.cur.hard.Cpu = 0#64 ∨ d.hard.Cpu.toNat < a.st.cur.hard.Cpu.toNat - a.st.cur.used.Cpu.toNat)
+    (hk : (runBody { a with st := push a.st d } body).2 = .killed .cpu) :
+    (runItem a (.call d body)).2 = .done ∧ (runItem a (.call d body)).1.st.cur.live = true ∧
+    (runItem a (.call d body)).1.st.parents = a.st.parents ∧
+    ∃ r, (runItem a (.call d body)).1.results = r :: (runBody { a with st := push a.st d } body).1.results ∧
+      r.status = StatusKilled ∧ r.exit = .killed .cpu :=
+  own_limit_dies_alone a d body hw hi hl hd htight hk
 
 /-! ## non-vacuity -/
 
@@ -211,12 +203,24 @@ example : Outcome.terminated ∉ outcomes ⟨limited 10#64, []⟩ (cpuOps [3#64,
   simp only [List.mem_cons, List.not_mem_nil, or_false] at hn
   rcases hn with rfl | rfl | rfl | rfl <;> decide
 
-/-- the hypotheses of `uninterceptable_unit_partial` are met by a pcall child under a limit of 10
-after 9 unit ticks -/
-example : let p := (run ⟨limited 10#64, []⟩ (cpuOps [4#64])).cur
-    let c := (run ⟨p.child CtxDef.none, [p]⟩ (cpuOps [1#64, 1#64, 1#64, 1#64, 1#64])).cur
-    c.hard.Cpu = 6#64 ∧ c.used.Cpu = 5#64 ∧ (c.requireCPU 1#64).2 = .terminated ∧
-    ((pop ⟨(c.requireCPU 1#64).1, [p]⟩).1.cur.requireCPU 1#64).2 = .terminated := by decide
+def interceptDef : CtxDef := ⟨⟨10#64, 0#64, 0#64⟩, Res.zero, 0#16⟩
+/-- `callcontext{kill={cpu=10}}( pcall(pcall(big)) ; 9 more ticks )`: the witness of the former
+`uninterceptable_counterexample` — the request of 20 now terminates the limited context itself -/
+def interceptProg : Item :=
+  .call interceptDef [.call CtxDef.none [.call CtxDef.none [.op (.reqCpu 20#64)]], .op (.reqCpu 1#64), .op (.reqCpu 8#64)]
+
+example : (exec St.init interceptProg).1.events.reverse.map (fun e => (e.depth, e.out)) = [(3, .terminated)] ∧
+    (exec St.init interceptProg).1.results.reverse.map (fun r => (r.depth, r.status, r.exit)) =
+      [(1, StatusKilled, .killed .cpu)] ∧ (exec St.init interceptProg).1.st = St.init := by decide +kernel
+
+/-- hypotheses of `uninterceptable` / `kill_exact_nested_from_root`: a two-deep pcall nest whose cost is 12 ≥ 10 -/
+example : bodyPcallCpu [.op (.reqCpu 4#64), .call CtxDef.none [.op (.reqCpu 3#64), .call CtxDef.none [.op (.reqCpu 5#64)]]] = true ∧
+    bodyCost [.op (.reqCpu 4#64), .call CtxDef.none [.op (.reqCpu 3#64), .call CtxDef.none [.op (.reqCpu 5#64)]]] = 12 := by
+  decide
+
+/-- own tighter limit: the inner `callcontext{kill={cpu=3}}` is killed alone, the outer goes on and ends `done` -/
+example : (exec St.init (.call interceptDef [.call ⟨⟨3#64, 0#64, 0#64⟩, Res.zero, 0#16⟩ [.op (.reqCpu 5#64)], .op (.reqCpu 2#64)])).1.results.reverse.map
+      (fun r => (r.depth, r.status, r.exit)) = [(2, StatusKilled, .killed .cpu), (1, StatusDone, .done)] := by decide +kernel
 
 example : wfBody [.call CtxDef.none [.op (.reqCpu 20#64)], .op (.reqCpu 1#64)] = true := by decide
 
